@@ -28,11 +28,11 @@ PROP = dict(
     stages=[
         dict(kind="walk", name="hold", module="StressRelief", pkg="collect", test="TestVerifStressRelief",
              harness=["collect/c15_stressrelief_test.go"], alternatives=_alts("hold"),
-             budget={"quick": 20, "thorough": 200}),
+             budget={"quick": 25, "thorough": 150}),
         dict(kind="walk", name="cluster", module="StressRelief", pkg="collect", test="TestVerifStressRelief",
              harness=["collect/c15_stressrelief_test.go"], alternatives=_alts("cluster"),
-             budget={"quick": 10, "thorough": 150}),
+             budget={"quick": 15, "thorough": 120}),
         dict(kind="tlc", name="ideal", module="StressRelief",
-             cfg={"quick": "MC_StressRelief_ideal_q.cfg", "thorough": "MC_StressRelief_ideal_t.cfg"}, workers=8),
+             cfg={"quick": None, "thorough": "MC_StressRelief_ideal_t.cfg"}, workers=8),
     ],
 )
